@@ -68,6 +68,33 @@ def tuple_assigned(func, var):
     return None if any(m is None for m in ms) else ms
 
 
+def membership_tuple(func, module_tree):
+    """The single tuple of PP_PLACEHOLDER members that a membership test (in / not in) of func refers to, whatever the
+    tuple is called and wherever it is bound (inline, a local of func or of a nested function, or a module-level constant).
+    None when there is no such test or the tests refer to different tuples."""
+    def bound(name):
+        hits = [n for n in ast.walk(func) if isinstance(n, ast.Assign) and len(n.targets) == 1
+                and isinstance(n.targets[0], ast.Name) and n.targets[0].id == name]
+        if not hits:
+            hits = [n for n in module_tree.body if isinstance(n, ast.Assign) and len(n.targets) == 1
+                    and isinstance(n.targets[0], ast.Name) and n.targets[0].id == name]
+        return hits[0].value if len(hits) == 1 else None
+
+    found = []
+    for n in ast.walk(func):
+        if isinstance(n, ast.Compare) and len(n.ops) == 1 and isinstance(n.ops[0], (ast.In, ast.NotIn)):
+            c = n.comparators[0]
+            if isinstance(c, ast.Name):
+                c = bound(c.id)
+            if isinstance(c, ast.Tuple):
+                ms = [enum_member(e) for e in c.elts]
+                if ms and all(m is not None for m in ms):
+                    found.append(ms)
+    if not found or any(f != found[0] for f in found):
+        return None
+    return found[0]
+
+
 def dict_literal(func):
     """The single dict literal keyed by PP_PLACEHOLDER members that is subscripted in func."""
     hits = [n for n in ast.walk(func) if isinstance(n, ast.Subscript) and isinstance(n.value, ast.Dict)]
@@ -151,9 +178,11 @@ def main():
         return val
 
     f = find_func(slide_py, ["SlideLayout", "iter_cloneable_placeholders"])
-    latent = need(tuple_assigned(f, "latent_ph_types") if f else None, "slide.py SlideLayout.iter_cloneable_placeholders latent_ph_types")
+    latent = need((tuple_assigned(f, "latent_ph_types") or membership_tuple(f, slide_py)) if f else None,
+                  "slide.py SlideLayout.iter_cloneable_placeholders latent_ph_types")
     f = find_func(slide_py, ["NotesSlide", "clone_master_placeholders"])
-    notes_cloneable = need(tuple_assigned(f, "cloneable") if f else None, "slide.py NotesSlide.clone_master_placeholders cloneable")
+    notes_cloneable = need((tuple_assigned(f, "cloneable") or membership_tuple(f, slide_py)) if f else None,
+                           "slide.py NotesSlide.clone_master_placeholders cloneable")
     f = find_func(tree_py, ["_BaseShapes", "ph_basename"])
     base_slide = need(dict_literal(f) if f else None, "shapetree.py _BaseShapes.ph_basename dict")
     f = find_func(tree_py, ["NotesSlideShapes", "ph_basename"])
@@ -185,6 +214,7 @@ def main():
                 and isinstance(n.left, ast.Constant) and isinstance(n.left.value, str)]
         v = [s for s in fmts if s.endswith("%s") and s.count("%") == 1]
         n2 = [s for s in fmts if s.startswith("%s") and s.endswith("%d") and s.count("%") == 2]
+        fmts, v, n2 = sorted(set(fmts)), sorted(set(v)), sorted(set(n2))      # the same literal may be spelled at two places
         if len(fmts) != 2 or len(v) != 1 or len(n2) != 1:
             unmodelled.append("_next_ph_name format strings %r" % (fmts,))
         else:
